@@ -31,3 +31,24 @@ Lemma gen_opt_writers :
   /\ opt_writers_cache_types = [bytes_of "append(opt.Option, e.ede)"]
   /\ opt_writers_pool = [bytes_of "append(msg.IsEdns0().Option, ka)"].
 Proof. repeat split; reflexivity. Qed.
+
+(* appendWireOPT (middleware/edns/wire.go): the builders it calls, in order, with their arguments,
+   and the guards in front of them — WireOpt.append_wire_opt composes the TRANSLATED builders in
+   exactly this order under exactly these guards *)
+Lemma gen_wire_opt_calls :
+  wire_opt_calls_src = [bytes_of "AppendOPTHeader(body, w.respUDPSize, w.do)";
+                        bytes_of "AppendOption(body, dns.EDNS0COOKIE, cookie[:])";
+                        bytes_of "AppendOptionString(body, dns.EDNS0NSID, w.nsidstr)";
+                        bytes_of "AppendOption(body, dns.EDNS0TCPKEEPALIVE, timeout[:])";
+                        bytes_of "AppendOptionEDE(body, info.EDECode, info.EDEText)";
+                        bytes_of "FinishOPT(body, rdlenOff)"]
+  /\ wire_opt_guards_src = [bytes_of "w.cookie != """" || w.hasCookieRaw"; bytes_of "w.nsidstr != """" && w.nsid";
+                            bytes_of "w.keepalive"; bytes_of "info.HasEDE"].
+Proof. split; reflexivity. Qed.
+
+(* WriteWire's top-level guards, in order (Model.write_wire follows them) *)
+Lemma gen_write_wire_guards :
+  write_wire_guards_src = [bytes_of "!ok || len(body) < wire.HeaderLen"; bytes_of "!w.do && info.HasDNSSEC";
+                           bytes_of "w.noad && info.AuthenticatedData"; bytes_of "w.noedns"; bytes_of "!ok"; bytes_of "!ok";
+                           bytes_of "w.Proto() == ""udp"" && len(withOPT) > w.size"].
+Proof. reflexivity. Qed.
